@@ -103,6 +103,10 @@ func dereferenceJSONPointer(s *Schema, sptr string) (_ *Schema, err error) {
 			if len(seg) > 1 && seg[0] == '0' {
 				return nil, fmt.Errorf("segment %q has leading zeroes", seg)
 			}
+			if strings.ContainsFunc(seg, func(r rune) bool { return r < '0' || r > '9' }) {
+				// RFC 6901: an array index is "0" or a sequence of digits. (Atoi also accepts a sign.)
+				return nil, fmt.Errorf("invalid int: %q", seg)
+			}
 			n, err := strconv.Atoi(seg)
 			if err != nil {
 				return nil, fmt.Errorf("invalid int: %q", seg)
